@@ -185,9 +185,30 @@ func (tc *TypeConverter) TypeToExpr(t types.Type) ast.Expr {
 			Dir:   dir,
 			Value: tc.TypeToExpr(typ.Elem()),
 		}
+	case *types.Signature:
+		funcType := &ast.FuncType{Params: tc.tupleToFieldList(typ.Params(), typ.Variadic())}
+		if typ.Results().Len() > 0 {
+			funcType.Results = tc.tupleToFieldList(typ.Results(), false)
+		}
+		return funcType
 	default:
 		return ast.NewIdent(t.String())
 	}
+}
+
+// tupleToFieldList spells the parameters or results of a function type (types only, no names).
+func (tc *TypeConverter) tupleToFieldList(tuple *types.Tuple, variadic bool) *ast.FieldList {
+	fields := make([]*ast.Field, 0, tuple.Len())
+	for i := 0; i < tuple.Len(); i++ {
+		t := tuple.At(i).Type()
+		if slice, ok := t.(*types.Slice); ok && variadic && i == tuple.Len()-1 {
+			// the last parameter of a variadic function has type []T and is spelled ...T
+			fields = append(fields, &ast.Field{Type: &ast.Ellipsis{Elt: tc.TypeToExpr(slice.Elem())}})
+			continue
+		}
+		fields = append(fields, &ast.Field{Type: tc.TypeToExpr(t)})
+	}
+	return &ast.FieldList{List: fields}
 }
 
 // typeNameToExpr spells a declared type: qualified with the name its package is imported under when it
